@@ -3,7 +3,7 @@
 // tab-separated fact lines `<id>\t<key>\t<value>` to $SYLVIA_VERIF_OUT.
 //
 // Request file format (line oriented):
-//   #REQ <id> <kind>          kind = contract | interface | entry_points | tables
+//   #REQ <id> <kind>          kind = contract | interface | entry_points | tables | scan | ast
 //   #ATTR                     (optional) attribute tokens of the macro invocation
 //   ...
 //   #ITEM                     the annotated item source (for `tables`: the src directory)
@@ -681,6 +681,364 @@ fn handle_scan(o: &mut Out, path: &str) {
     o.id = base_id;
 }
 
+
+// ------------------------------------------------------------------------------------------
+// Translator front-end for the imperative run-time library code (sylvia/src/utils.rs, builders):
+// every fn of a file as an S-expression over a small Rust subset. Shapes outside the subset are
+// dumped as (unsupported "..."), which the Python side refuses for the functions it translates.
+
+fn q(s: &str) -> String {
+    let mut o = String::from("\"");
+    for c in s.chars() {
+        match c {
+            '"' => o.push_str("\\\""),
+            '\\' => o.push_str("\\\\"),
+            '\n' => o.push_str("\\n"),
+            _ => o.push(c),
+        }
+    }
+    o.push('"');
+    o
+}
+
+fn sx_path(p: &syn::Path) -> String {
+    let mut o = String::from("(path");
+    for s in &p.segments {
+        o.push(' ');
+        o.push_str(&q(&s.ident.to_string()));
+    }
+    o.push(')');
+    o
+}
+
+fn sx_lit(l: &syn::Lit) -> String {
+    match l {
+        syn::Lit::Int(i) => format!("(int {})", i.base10_digits()),
+        syn::Lit::Bool(b) => format!("(bool {})", b.value),
+        syn::Lit::Str(s) => format!("(str {})", q(&s.value())),
+        other => format!("(unsupported {})", q(&format!("lit {}", ts(other)))),
+    }
+}
+
+fn sx_pat(p: &syn::Pat) -> String {
+    match p {
+        syn::Pat::Wild(_) => "(pwild)".into(),
+        syn::Pat::Rest(_) => "(prest)".into(),
+        syn::Pat::Ident(i) if i.subpat.is_none() && i.by_ref.is_none() => {
+            format!("(pident {} {})", q(&i.ident.to_string()), if i.mutability.is_some() { "mut" } else { "imm" })
+        }
+        syn::Pat::Path(pp) if pp.qself.is_none() => format!("(ppath {})", sx_path(&pp.path)),
+        syn::Pat::TupleStruct(t) if t.qself.is_none() => {
+            let mut o = format!("(ptuplestruct {}", sx_path(&t.path));
+            for e in &t.elems {
+                o.push(' ');
+                o.push_str(&sx_pat(e));
+            }
+            o.push(')');
+            o
+        }
+        syn::Pat::Or(or) => {
+            let mut o = String::from("(por");
+            for c in &or.cases {
+                o.push(' ');
+                o.push_str(&sx_pat(c));
+            }
+            o.push(')');
+            o
+        }
+        syn::Pat::Lit(l) => match &l.lit {
+            lit => format!("(plit {})", sx_lit(lit)),
+        },
+        syn::Pat::Paren(pp) => sx_pat(&pp.pat),
+        syn::Pat::Reference(r) if r.mutability.is_none() => sx_pat(&r.pat),
+        syn::Pat::Type(t) => sx_pat(&t.pat),
+        other => format!("(unsupported {})", q(&format!("pat {}", ts(other)))),
+    }
+}
+
+fn sx_block(b: &syn::Block) -> String {
+    sx_stmts(&b.stmts)
+}
+
+fn sx_stmts(stmts: &[syn::Stmt]) -> String {
+    let mut o = String::from("(block");
+    for s in stmts {
+        o.push(' ');
+        match s {
+            syn::Stmt::Local(l) => match &l.init {
+                Some(init) if init.diverge.is_none() => {
+                    o.push_str(&format!("(let {} {})", sx_pat(&l.pat), sx_expr(&init.expr)));
+                }
+                _ => o.push_str(&format!("(unsupported {})", q(&format!("let {}", ts(l))))),
+            },
+            syn::Stmt::Expr(e, semi) => {
+                if semi.is_some() {
+                    o.push_str(&format!("(semi {})", sx_expr(e)));
+                } else {
+                    o.push_str(&format!("(tail {})", sx_expr(e)));
+                }
+            }
+            syn::Stmt::Macro(m) => {
+                let e = sx_macro(&m.mac);
+                if m.semi_token.is_some() {
+                    o.push_str(&format!("(semi {})", e));
+                } else {
+                    o.push_str(&format!("(tail {})", e));
+                }
+            }
+            syn::Stmt::Item(i) => o.push_str(&format!("(unsupported {})", q(&format!("item {}", ts(i))))),
+        }
+    }
+    o.push(')');
+    o
+}
+
+struct ForRange {
+    var: syn::Ident,
+    lo: syn::Expr,
+    hi: syn::Expr,
+    body: Vec<syn::Stmt>,
+}
+
+impl syn::parse::Parse for ForRange {
+    fn parse(input: syn::parse::ParseStream) -> syn::Result<Self> {
+        let var: syn::Ident = input.parse()?;
+        input.parse::<syn::Token![in]>()?;
+        // the range expression stops before `=>`
+        let range: syn::Expr = input.call(syn::Expr::parse_without_eager_brace)?;
+        input.parse::<syn::Token![=>]>()?;
+        let body = input.call(syn::Block::parse_within)?;
+        match range {
+            syn::Expr::Range(r) if matches!(r.limits, syn::RangeLimits::HalfOpen(_)) => match (r.start, r.end) {
+                (Some(lo), Some(hi)) => Ok(ForRange { var, lo: *lo, hi: *hi, body }),
+                _ => Err(input.error("open range")),
+            },
+            _ => Err(input.error("not a half-open range")),
+        }
+    }
+}
+
+fn sx_macro(m: &syn::Macro) -> String {
+    let name = m.path.segments.iter().map(|s| s.ident.to_string()).collect::<Vec<_>>().join("::");
+    match name.as_str() {
+        "konst::for_range" => match syn::parse2::<ForRange>(m.tokens.clone()) {
+            Ok(f) => format!("(forrange {} {} {} {})", q(&f.var.to_string()), sx_expr(&f.lo), sx_expr(&f.hi), sx_stmts(&f.body)),
+            Err(e) => format!("(unsupported {})", q(&format!("for_range: {}", e))),
+        },
+        "panic" | "unreachable" | "unimplemented" | "todo" => {
+            // the first string literal, if any, is the message
+            let msg = syn::parse2::<syn::LitStr>(m.tokens.clone()).map(|l| l.value()).unwrap_or_default();
+            let only_lit = m.tokens.is_empty() || syn::parse2::<syn::LitStr>(m.tokens.clone()).is_ok();
+            if only_lit {
+                format!("(macro {} {})", q(&name), q(&msg))
+            } else {
+                format!("(unsupported {})", q(&format!("macro {}", ts(m))))
+            }
+        }
+        "vec" if m.tokens.is_empty() => "(array)".into(),
+        _ => format!("(unsupported {})", q(&format!("macro {}", ts(m)))),
+    }
+}
+
+fn sx_binop(op: &syn::BinOp) -> Option<(&'static str, bool)> {
+    // (operator, is compound assignment)
+    Some(match op {
+        syn::BinOp::Add(_) => ("+", false),
+        syn::BinOp::Sub(_) => ("-", false),
+        syn::BinOp::Mul(_) => ("*", false),
+        syn::BinOp::And(_) => ("&&", false),
+        syn::BinOp::Or(_) => ("||", false),
+        syn::BinOp::Eq(_) => ("==", false),
+        syn::BinOp::Ne(_) => ("!=", false),
+        syn::BinOp::Lt(_) => ("<", false),
+        syn::BinOp::Le(_) => ("<=", false),
+        syn::BinOp::Gt(_) => (">", false),
+        syn::BinOp::Ge(_) => (">=", false),
+        syn::BinOp::AddAssign(_) => ("+", true),
+        syn::BinOp::SubAssign(_) => ("-", true),
+        _ => return None,
+    })
+}
+
+fn sx_expr(e: &syn::Expr) -> String {
+    match e {
+        syn::Expr::Lit(l) => sx_lit(&l.lit),
+        syn::Expr::Path(p) if p.qself.is_none() => sx_path(&p.path),
+        syn::Expr::Paren(p) => sx_expr(&p.expr),
+        syn::Expr::Group(p) => sx_expr(&p.expr),
+        syn::Expr::Reference(r) => {
+            if r.mutability.is_some() {
+                format!("(unsupported {})", q("&mut"))
+            } else {
+                format!("(ref {})", sx_expr(&r.expr))
+            }
+        }
+        syn::Expr::Unary(u) => match u.op {
+            syn::UnOp::Deref(_) => format!("(deref {})", sx_expr(&u.expr)),
+            syn::UnOp::Not(_) => format!("(not {})", sx_expr(&u.expr)),
+            _ => format!("(unsupported {})", q(&format!("unary {}", ts(u)))),
+        },
+        syn::Expr::Binary(b) => match sx_binop(&b.op) {
+            Some((op, false)) => format!("(bin {} {} {})", q(op), sx_expr(&b.left), sx_expr(&b.right)),
+            Some((op, true)) => format!("(assignop {} {} {})", q(op), sx_expr(&b.left), sx_expr(&b.right)),
+            None => format!("(unsupported {})", q(&format!("binary {}", ts(b)))),
+        },
+        syn::Expr::Assign(a) => format!("(assign {} {})", sx_expr(&a.left), sx_expr(&a.right)),
+        syn::Expr::Index(i) => format!("(index {} {})", sx_expr(&i.expr), sx_expr(&i.index)),
+        syn::Expr::Field(f) => match &f.member {
+            syn::Member::Named(n) => format!("(field {} {})", sx_expr(&f.base), q(&n.to_string())),
+            syn::Member::Unnamed(n) => format!("(field {} {})", sx_expr(&f.base), q(&n.index.to_string())),
+        },
+        syn::Expr::Call(c) => {
+            let mut o = format!("(call {}", sx_expr(&c.func));
+            for a in &c.args {
+                o.push(' ');
+                o.push_str(&sx_expr(a));
+            }
+            o.push(')');
+            o
+        }
+        syn::Expr::MethodCall(c) => {
+            if c.turbofish.is_some() {
+                return format!("(unsupported {})", q("turbofish"));
+            }
+            let mut o = format!("(mcall {} {}", sx_expr(&c.receiver), q(&c.method.to_string()));
+            for a in &c.args {
+                o.push(' ');
+                o.push_str(&sx_expr(a));
+            }
+            o.push(')');
+            o
+        }
+        syn::Expr::Block(b) if b.label.is_none() => sx_block(&b.block),
+        syn::Expr::If(i) => {
+            let cond = match &*i.cond {
+                syn::Expr::Let(l) => format!("(letcond {} {})", sx_pat(&l.pat), sx_expr(&l.expr)),
+                c => sx_expr(c),
+            };
+            match &i.else_branch {
+                Some((_, els)) => format!("(if {} {} {})", cond, sx_block(&i.then_branch), sx_expr(els)),
+                None => format!("(if {} {})", cond, sx_block(&i.then_branch)),
+            }
+        }
+        syn::Expr::Match(m) => {
+            let mut o = format!("(match {}", sx_expr(&m.expr));
+            for a in &m.arms {
+                match &a.guard {
+                    Some((_, g)) => o.push_str(&format!(" (arm {} (guard {}) {})", sx_pat(&a.pat), sx_expr(g), sx_expr(&a.body))),
+                    None => o.push_str(&format!(" (arm {} {})", sx_pat(&a.pat), sx_expr(&a.body))),
+                }
+            }
+            o.push(')');
+            o
+        }
+        syn::Expr::While(w) if w.label.is_none() => format!("(while {} {})", sx_expr(&w.cond), sx_block(&w.body)),
+        syn::Expr::Continue(c) if c.label.is_none() => "(continue)".into(),
+        syn::Expr::Break(b) if b.label.is_none() && b.expr.is_none() => "(break)".into(),
+        syn::Expr::Return(r) => match &r.expr {
+            Some(e) => format!("(return {})", sx_expr(e)),
+            None => "(return)".into(),
+        },
+        syn::Expr::Macro(m) => sx_macro(&m.mac),
+        syn::Expr::Repeat(r) => format!("(repeat {} {})", sx_expr(&r.expr), sx_expr(&r.len)),
+        syn::Expr::Array(a) => {
+            let mut o = String::from("(array");
+            for e in &a.elems {
+                o.push(' ');
+                o.push_str(&sx_expr(e));
+            }
+            o.push(')');
+            o
+        }
+        syn::Expr::Tuple(t) if t.elems.is_empty() => "(unit)".into(),
+        syn::Expr::Struct(s) if s.qself.is_none() => {
+            let mut o = format!("(struct {}", sx_path(&s.path));
+            for f in &s.fields {
+                if let syn::Member::Named(n) = &f.member {
+                    o.push_str(&format!(" (f {} {})", q(&n.to_string()), sx_expr(&f.expr)));
+                } else {
+                    o.push_str(&format!(" (unsupported {})", q("tuple field")));
+                }
+            }
+            if let Some(r) = &s.rest {
+                o.push_str(&format!(" (rest {})", sx_expr(r)));
+            }
+            o.push(')');
+            o
+        }
+        other => format!("(unsupported {})", q(&format!("expr {}", ts(other)))),
+    }
+}
+
+fn sx_fn(attrs: &[syn::Attribute], sig: &syn::Signature, block: &syn::Block) -> String {
+    let mut o = format!("(fn {} (consts", q(&sig.ident.to_string()));
+    for g in &sig.generics.params {
+        if let syn::GenericParam::Const(c) = g {
+            o.push(' ');
+            o.push_str(&q(&c.ident.to_string()));
+        }
+    }
+    o.push_str(") (params");
+    for a in &sig.inputs {
+        match a {
+            syn::FnArg::Receiver(r) => {
+                let kind = if r.reference.is_some() { if r.mutability.is_some() { "&mut self" } else { "&self" } } else { "self" };
+                o.push_str(&format!(" (p {} {})", q("self"), q(kind)));
+            }
+            syn::FnArg::Typed(t) => {
+                let name = match &*t.pat {
+                    syn::Pat::Ident(i) => i.ident.to_string(),
+                    other => format!("?{}", ts(other)),
+                };
+                o.push_str(&format!(" (p {} {})", q(&name), q(&ts(&t.ty))));
+            }
+        }
+    }
+    let cfgs: Vec<String> = attrs.iter().filter(|a| a.path().is_ident("cfg")).map(|a| ts(a)).collect();
+    o.push_str(&format!(") (cfg {}) {})", q(&cfgs.join(" ")), sx_block(block)));
+    o
+}
+
+fn handle_ast(o: &mut Out, path: &str) {
+    let src = match std::fs::read_to_string(path.trim()) {
+        Ok(s) => s,
+        Err(e) => {
+            o.put("status", &format!("unreadable {}", e));
+            return;
+        }
+    };
+    let file = match syn::parse_file(&src) {
+        Ok(f) => f,
+        Err(e) => {
+            o.put("status", &format!("unparsable {}", e));
+            return;
+        }
+    };
+    for item in &file.items {
+        match item {
+            syn::Item::Fn(f) => o.put("fn", &sx_fn(&f.attrs, &f.sig, &f.block)),
+            syn::Item::Impl(i) if i.trait_.is_none() => {
+                let ty = ts(&i.self_ty);
+                for it in &i.items {
+                    if let syn::ImplItem::Fn(f) = it {
+                        o.put("method", &format!("{} @@ {}", ty, sx_fn(&f.attrs, &f.sig, &f.block)));
+                    }
+                }
+            }
+            syn::Item::Enum(e) => {
+                let vs: Vec<String> = e.variants.iter().map(|v| format!("{}/{}", v.ident, v.fields.len())).collect();
+                o.put("enum", &format!("{} @@ {}", e.ident, vs.join(" ")));
+            }
+            syn::Item::Struct(s) => {
+                let fs: Vec<String> = s.fields.iter().map(|f| format!("{}:{}", f.ident.as_ref().map(|i| i.to_string()).unwrap_or_default(), ts(&f.ty))).collect();
+                o.put("struct", &format!("{} @@ {}", s.ident, fs.join(" ;; ")));
+            }
+            _ => {}
+        }
+    }
+    o.put("status", "ast_done");
+}
+
 #[test]
 fn verif_probe() {
     std::panic::set_hook(Box::new(|_| {}));
@@ -711,6 +1069,8 @@ fn verif_probe() {
                     handle_tables(&mut o, &item);
                 } else if kind == "scan" {
                     handle_scan(&mut o, &item);
+                } else if kind == "ast" {
+                    handle_ast(&mut o, &item);
                 } else {
                     handle_expand(&mut o, &kind, &attr, &item);
                 }
